@@ -2,6 +2,7 @@
 #pragma once
 #include <cstdint>
 #include <cstdio>
+#include <cmath>
 #include <cstdlib>
 #include <limits>
 #include <string>
@@ -120,7 +121,10 @@ inline double weightArg(int64_t x, bool exact, bool nonneg) {
         uint64_t z = (uint64_t)x * 0x9e3779b97f4a7c15ULL;
         z ^= z >> 29; z *= 0xbf58476d1ce4e5b9ULL; z ^= z >> 32;
         double u = (double)(z >> 11) / 9007199254740992.0; // [0,1)
-        w = (u * 2.0 - 1.0) * 1e6;
+        // magnitudes spread over ~2^-30 .. 2^30 (not merely +-1e6): sums of such weights are NOT exactly representable,
+        // so the running total genuinely depends on the order of the history
+        int e = (int)((z >> 3) % 61) - 30;
+        w = std::ldexp(u * 2.0 - 1.0, e);
         if ((x % 7) == 0) w = 0.0;
     }
     if (nonneg && w < 0) w = -w;
